@@ -47,7 +47,7 @@ macro_rules! impl_skip_until_op {
       N: Observable<
         NotifyItem,
         NotifyErr,
-        SkipUntilNotifierObserver<$observer<O>>,
+        SkipUntilNotifierObserver<$observer<O>, Item, Err>,
       >,
     {
       type Unsub = ZipSubscription<S::Unsub, N::Unsub>;
@@ -56,7 +56,10 @@ macro_rules! impl_skip_until_op {
         // We need to keep a reference to the observer from two places
         let share_observer = $observer::new(observer);
 
-        let notify_observer = SkipUntilNotifierObserver(share_observer.clone());
+        let notify_observer = SkipUntilNotifierObserver(
+          share_observer.clone(),
+          TypeHint::default(),
+        );
         let b = self.notifier.actual_subscribe(notify_observer);
         let a = self.source.actual_subscribe(share_observer);
         ZipSubscription::new(a, b)
@@ -76,7 +79,7 @@ macro_rules! impl_skip_until_op {
 impl_skip_until_op!(SkipUntilOp, MutRc, ShareObserver);
 impl_skip_until_op!(SkipUntilOpThreads, MutArc, ShareObserverThreads);
 
-pub struct SkipUntilNotifierObserver<O>(O);
+pub struct SkipUntilNotifierObserver<O, Item, Err>(O, TypeHint<(Item, Err)>);
 
 pub struct ShareObserver<O> {
   observer: MutRc<Option<O>>,
@@ -125,25 +128,28 @@ macro_rules! impl_observer {
       }
     }
 
-    impl<Item, Err, O> Observer<Item, Err>
-      for SkipUntilNotifierObserver<$name<O>>
+    impl<Item, Err, NotifyItem, NotifyErr, O> Observer<NotifyItem, NotifyErr>
+      for SkipUntilNotifierObserver<$name<O>, Item, Err>
+    where
+      O: Observer<Item, Err>,
     {
       #[inline]
-      fn next(&mut self, _: Item) {
+      fn next(&mut self, _: NotifyItem) {
         self.0.stop_skipping();
       }
 
       #[inline]
-      fn error(self, _: Err) {}
+      fn error(self, _: NotifyErr) {}
 
       #[inline]
       fn complete(self) {
         self.0.stop_skipping()
       }
 
+      // the notifier is no longer needed once the main stream has ended
       #[inline]
       fn is_finished(&self) -> bool {
-        false
+        Observer::<Item, Err>::is_finished(&self.0)
       }
     }
   };
